@@ -174,6 +174,10 @@ def run(ctx, R, tier):
     seek_callers(F, R)
     end_rule(F, R)
     end_after_step(F, R)
+    from .c03 import commands_reach_manager
+    commands_reach_manager(F, R, rule='B.C09.cmd-applied')
+    from .c18 import seek_landing
+    seek_landing(F, R)
     # 'given a decoder that keeps ahead of playback': the decoder thread keeps decoding until the sound is Stopped (not
     # merely Stopping: a stop fade can be resumed), sleeps only when the ring is full, ends at the end of the data - the C10 rules
     from . import c10
